@@ -552,6 +552,101 @@ FIXED_HISTORIES = [
 ]
 
 
+# --------------------------------------------------------------------------- composed expressions (round 10)
+# Histories that realise, on the real code, the expression trees of `logical_expr_matches` (`& | ^ ~` over boolean
+# Vars, any of the four settings, all truth assignments) and of the unary-minus case of `expr_scalars_match`
+# (`+ - * //` and unary `-` over SIGNED integer Vars with Python int literals on either side, INT_MIN among the
+# values). They run through the same correspondence (each step dispatched by the model on the element types it
+# computed for the earlier steps) and the same model-free oracle (every intermediate: onnxruntime vs numpy).
+R10_FIXED = [
+    # ~(x0 & x1) ^ (x0 | ~x1), promotion off: every intermediate boolean, numpy's truth table
+    {"vars": [11, 11], "values": [[False, False, True, True], [False, True, False, True]],
+     "blocks": [{"st": [False, False], "pre": [{"op": "and_", "a": ["v", 0], "b": ["v", 1]}, {"op": "not_", "a": ["r", 0], "b": None},
+                                               {"op": "not_", "a": ["v", 1], "b": None}, {"op": "or_", "a": ["v", 0], "b": ["r", 2]},
+                                               {"op": "xor", "a": ["r", 1], "b": ["r", 3]}]}]},
+    # a result re-used twice, across a nested block with other settings (the two slots always hold different
+    # objects: the rendering of the real tree names operands by identity)
+    {"vars": [11, 11, 11], "values": [[bool(i & 1) for i in range(8)], [bool(i & 2) for i in range(8)], [bool(i & 4) for i in range(8)]],
+     "blocks": [{"st": [True, True], "pre": [{"op": "xor", "a": ["v", 0], "b": ["v", 2]}, {"op": "or_", "a": ["r", 0], "b": ["v", 1]}],
+                 "inner": {"st": [False, True], "pre": [{"op": "not_", "a": ["r", 1], "b": None}, {"op": "and_", "a": ["r", 2], "b": ["v", 2]}]},
+                 "post": [{"op": "xor", "a": ["r", 3], "b": ["r", 1]}, {"op": "not_", "a": ["r", 4], "b": None}]}]},
+    # -(x0 // 2) * 3 and 100 - (-x0) on int8 incl. -128 (numpy wraps -(-128) to -128)
+    {"vars": [0], "values": [[-128, -7, -1, 0, 7, 127]],
+     "blocks": [{"st": [True, True], "pre": [{"op": "floordiv", "a": ["v", 0], "b": ["int", 2]}, {"op": "neg", "a": ["r", 0], "b": None},
+                                              {"op": "mul", "a": ["r", 1], "b": ["int", 3]}, {"op": "neg", "a": ["v", 0], "b": None},
+                                              {"op": "sub", "a": ["int", 100], "b": ["r", 3]}]}]},
+    # unary minus of a promoted intermediate: -(x0 + x1) // x1 with int16 / int64
+    {"vars": [1, 3], "values": [[-32768, -7, 5, 32767, 2, -3], [3, -2, 5, -7, 2, 3]],
+     "blocks": [{"st": [True, True], "pre": [{"op": "add", "a": ["v", 0], "b": ["v", 1]}, {"op": "neg", "a": ["r", 0], "b": None},
+                                              {"op": "floordiv", "a": ["r", 1], "b": ["v", 1]}, {"op": "neg", "a": ["v", 0], "b": None},
+                                              {"op": "mul", "a": ["r", 3], "b": ["r", 1]}]}]},
+]
+
+
+def gen_composed(rng, kind):
+    """kind 'logic': boolean Vars, & | ^ ~, any settings, all truth assignments.
+    kind 'neg': signed integer Vars, + - * // and unary -, int literals (constant promotion on) or none (off), promotion on,
+    INT_MIN among the values."""
+    steps, produced = [], 0
+    if kind == "logic":
+        nv = rng.randrange(2, 4)
+        dts = [11] * nv
+        vals = [[bool(i >> k & 1) for i in range(2 ** nv)] for k in range(nv)]
+        st = [rng.random() < 0.5, rng.random() < 0.5]
+    else:
+        nv = rng.randrange(2, 4)
+        dts = [rng.choice([0, 1, 2, 3]) for _ in range(nv)]
+        vals = []
+        for d in dts:
+            lo = -(2 ** (8 * 2 ** d - 1))
+            vals.append([rng.choice([lo, -lo - 1] + H_VALUES * 2) for _ in range(6)])
+        st = [True, rng.random() < 0.6]   # constant promotion off: no literals, unary minus must still work
+
+    def ref(divisor=False, avoid=None):
+        for _ in range(20):
+            if produced and not divisor and rng.random() < 0.55:
+                o = ["r", rng.randrange(produced)]
+            else:
+                o = ["v", rng.randrange(nv)]
+            if o != avoid:
+                return o
+        return ["v", (avoid[1] + 1) % nv] if avoid[0] == "v" else ["v", 0]
+
+    def mk(k):
+        nonlocal produced
+        out = []
+        for _ in range(k):
+            if kind == "logic":
+                op = rng.choice(LOGIC + ["not_"])
+                a_ = ref()
+                stp = {"op": op, "a": a_, "b": None if op == "not_" else ref(avoid=a_)}
+            else:
+                op = rng.choice(["add", "sub", "mul", "floordiv", "neg", "neg"])
+                if op == "neg":
+                    stp = {"op": op, "a": ref(), "b": None}
+                elif st[1] and rng.random() < 0.3:
+                    lit = ["int", rng.choice([2, 3, 7] if op == "floordiv" else [-3, 2, 3, 100])]
+                    # a literal divisor is never 0 / -1; a literal dividend meets a Var (never 0 / -1 among the values)
+                    stp = {"op": op, "a": ref(), "b": lit} if rng.random() < 0.5 else {"op": op, "a": lit, "b": ref(divisor=op == "floordiv")}
+                else:
+                    a_ = ref()
+                    stp = {"op": op, "a": a_, "b": ref(divisor=op == "floordiv", avoid=a_)}
+            out.append(stp)
+            produced += 1
+        return out
+
+    n = rng.randrange(3, 8)
+    if rng.random() < 0.5:
+        blocks = [{"st": st, "pre": mk(n)}]
+    else:
+        k = rng.randrange(1, n)
+        st2 = [rng.random() < 0.5, rng.random() < 0.5] if kind == "logic" else list(st)
+        pre = mk(k)
+        inner = {"st": st2, "pre": mk(max(1, (n - k) // 2))}
+        blocks = [{"st": st, "pre": pre, "inner": inner, "post": mk(max(0, n - k - max(1, (n - k) // 2)))}]
+    return {"vars": dts, "values": vals, "blocks": blocks}
+
+
 def run_history(env: Env, hist, shape=()):
     """Execute a history on the real code. -> (per-step outcome dicts, per-step result Vars, base Vars)"""
     np = env.np
@@ -1785,6 +1880,21 @@ def run(ck: core.Check):
     n_hist_v, n_hist_c = (400, 600) if boost else (ck.pick(150, 1500), ck.pick(250, 2500))
     hists_v = list(FIXED_HISTORIES) + [gen_history(rng, True) for _ in range(n_hist_v)]
     hists_c = list(FIXED_HISTORIES) + [gen_history(rng, False) for _ in range(n_hist_c)]
+    # round 10: composed logical expressions and unary minus inside integer expressions (own PRNG stream, so the
+    # histories above are the ones earlier rounds ran per seed)
+    import random as _random
+    rng10 = _random.Random(f"C17-composed-{ck.seed}")
+    n_comp = 120 if boost else ck.pick(40, 400)
+    composed = list(R10_FIXED) + [gen_composed(rng10, "logic") for _ in range(n_comp)] + [gen_composed(rng10, "neg") for _ in range(n_comp)]
+    hists_v = hists_v + composed
+    comp_ops = {}
+    for h in composed:
+        for _, s_ in hist_steps(h["blocks"]):
+            comp_ops[s_["op"]] = comp_ops.get(s_["op"], 0) + 1
+    ck.cov["composed_expression_histories"] = {"fixed": len(R10_FIXED), "logical": n_comp, "signed_with_unary_minus": n_comp,
+                                               "applications_by_operator": dict(sorted(comp_ops.items())),
+                                               "settings_of_logical": "all four (seeded)", "truth_assignments": "all 2^n, n <= 3",
+                                               "integer_values": "INT_MIN / INT_MAX of each Var's type + {-7,-3,-2,2,3,5}"}
     hist_mism = 0
     hstats = {"steps": 0, "reused_var_uses": 0, "nested": 0, "successive": 0}
     for h in hists_c + hists_v:
